@@ -292,6 +292,8 @@ def run_programs(programs, stages, nworkers=16):
             for st in stages:
                 if callable(st) and compiled:
                     st(p)
+                elif callable(st) and getattr(st, "static_part", None) is not None and p.shape and p.shape.get("ok"):
+                    st.static_part(p)
         except Exception as e:   # noqa: BLE001
             import traceback
             p.inconclusive = "harness error: " + "".join(traceback.format_exception_only(type(e), e)).strip() + " | " + traceback.format_exc()[-600:]
@@ -788,7 +790,11 @@ def run(prop, tier):
         full = prop != "C18"
         cfgs = wsdl_cfgs(q)
         nq, nt = {"C05": (16, 400), "C16": (8, 120), "C18": (16, 400)}[prop]
-        check_generic(prop, tier, cfgs, nq, nt, sigf, ["static", "probe", lambda p: engine_w.stage_wsdl(p, full_matrix=full)],
+        def wsdl_stage(p):
+            engine_w.stage_wsdl(p, full_matrix=full)
+        # programs that do not compile still have their methods and envelopes judged from the emitted text
+        wsdl_stage.static_part = lambda p: engine_w.stage_wsdl(p, full_matrix=full, static_only=True)
+        check_generic(prop, tier, cfgs, nq, nt, sigf, ["static", "probe", wsdl_stage],
                       level="fault_enumeration" if prop == "C16" else "exploration", rule=WSDL_RULES[prop],
                       nontrivial=lambda p: p.stats.get("operations_run", 0) > 0, min_eval=4,
                       cell_prefix="scencell:" if prop == "C16" else "opcell:",
@@ -1187,7 +1193,10 @@ def _scen_class(f):
 def sig_c18(f):
     r = f["rule"]
     if r == "not-send":
-        return f"C18|not-send|what={f['what']}|because={f.get('because') or '?'}"
+        because = f.get("because") or "?"
+        import re as _re
+        because = _re.sub(r"(\*const|\*mut|&mut|&)\s*[A-Za-z_][A-Za-z0-9_:<>]*", r"\1 T", because)    # generated type names out
+        return f"C18|not-send|what={f['what']}|because={because}"
     if r in ("call-did-not-complete", "runtime-hang"):
         return f"C18|{r}"
     return None
